@@ -137,9 +137,10 @@ SUCCESS_PRESERVING = ('std::result::Result::<T, E>::and_then', 'std::option::Opt
 
 
 class ZoneFn:
-    def __init__(self, za, body):
+    def __init__(self, za, body, overrides=None):
         self.za = za
         self.body = body
+        self.overrides = overrides or {}     # parameter local -> constant term (one call site of a local closure, analysed on its own)
         self.fd = za.eng.fndep(body.path)
         self._term = {}
         self._desc = {}
@@ -827,7 +828,9 @@ class ZoneFn:
         body, fd = self.body, self.fd
         ty = body.local_ty(l)
         if fd.is_param(l):
-            if ty.lstrip('&').strip() in ('usize', 'u64', 'u32', 'u16', 'u8'):
+            if l in self.overrides:
+                res = self.overrides[l]
+            elif ty.lstrip('&').strip() in ('usize', 'u64', 'u32', 'u16', 'u8'):
                 res = ('p%d' % l, 0)       # an integer, or a shared reference to one (same value)
         else:
             d = self.single_def(l)
